@@ -40,6 +40,7 @@ type ctx struct {
 	rootDetFns     map[*ssa.Function]bool // functions that are detectors of root-level non-text nodes
 	rootDetGlobals map[*ssa.Global]bool
 	pure           map[*ssa.Function]bool
+	curFvK         []kind // kinds of the captured variables for the next analyseCtx call (closures created by detectors)
 }
 
 type fnResult struct {
@@ -51,6 +52,7 @@ type fnResult struct {
 type analysis struct {
 	c        *ctx
 	f        *ssa.Function
+	fvK      []kind          // per free variable: the kind of the captured variable's content (nil: bound once at init, stable)
 	fnArgs   []*ssa.Function // per parameter: the function constant bound to a function-typed parameter in this context
 	argK     []kind
 	guess    map[*ssa.Phi]kind
@@ -177,10 +179,30 @@ func (a *analysis) compute(v ssa.Value) kind {
 					return kStable // element at a stable position (in bounds by C01)
 				}
 				return kTop
-			case *ssa.FreeVar, *ssa.Global, *ssa.FieldAddr:
+			case *ssa.FreeVar:
+				// a captured variable: stable when bound once at init (signature tables); inside a closure that the
+				// enclosing detector creates, the kind of what the enclosing function stored in it
+				if a.fvK != nil {
+					for i, fv := range a.f.FreeVars {
+						if fv == addr && i < len(a.fvK) {
+							return a.fvK[i]
+						}
+					}
+					return kTop
+				}
+				return kStable
+			case *ssa.Global, *ssa.FieldAddr:
 				return kStable
 			case *ssa.Alloc:
-				// local variable whose address is taken: only constant tables / named results in detectors
+				// a local that lives in memory because a closure captures it, assigned once before any use: its
+				// content is the assigned value
+				if st := writeOnce(addr); st != nil {
+					sb, lb := st.Block(), x.Block()
+					if sb == lb || sb.Dominates(lb) {
+						return at(st.Val)
+					}
+				}
+				// other local variables whose address is taken: only constant tables / named results in detectors
 				return kTop
 			}
 			return kTop
@@ -455,7 +477,41 @@ func (a *analysis) call(c *ssa.Call) kind {
 	if callee != nil {
 		name = callee.String()
 	}
+	if callee != nil && callee.Pkg == nil && callee.Origin() != nil {
+		name = callee.Origin().String()
+	}
 	switch name {
+	case "slices.ContainsFunc":
+		// any element of a stable list satisfies the predicate: as stable / upward / downward as the predicate is
+		if len(c.Call.Args) == 2 && ks[0] == kStable {
+			if mc, ok := c.Call.Args[1].(*ssa.MakeClosure); ok {
+				clo := mc.Fn.(*ssa.Function)
+				var fvK []kind
+				for _, b := range mc.Bindings {
+					k := kTop
+					if al, ok := b.(*ssa.Alloc); ok {
+						if st := writeOnce(al); st != nil && (st.Block() == mc.Block() || st.Block().Dominates(mc.Block())) {
+							k = a.kAt(st.Val, blk)
+						}
+					}
+					fvK = append(fvK, k)
+				}
+				argK := make([]kind, len(clo.Params))
+				for i := range argK {
+					argK[i] = kStable // an element of the stable list
+				}
+				r := a.c.analyseClosure(clo, argK, fvK)
+				if r.ret == kTop {
+					a.why = append(a.why, fmt.Sprintf("predicate %s is TOP: %v", clo.Name(), r.why))
+				}
+				return r.ret
+			}
+			if fn, ok := c.Call.Args[1].(*ssa.Function); ok {
+				r := a.c.analyse(fn, []kind{kStable})
+				return r.ret
+			}
+		}
+		return kTop
 	case "bytes.HasPrefix":
 		switch {
 		case allStable(ks...):
@@ -735,8 +791,52 @@ func (c *ctx) analyse(f *ssa.Function, argK []kind) fnResult {
 	return c.analyseCtx(f, argK, nil)
 }
 
+// analyseClosure analyses a closure created inside a detector: fvK gives the kinds of its captured variables.
+func (c *ctx) analyseClosure(f *ssa.Function, argK, fvK []kind) fnResult {
+	c.curFvK = fvK
+	defer func() { c.curFvK = nil }()
+	return c.analyseCtx(f, argK, nil)
+}
+
+// writeOnce: the single store to a local cell whose address only goes to loads and closures that only load it.
+func writeOnce(a *ssa.Alloc) *ssa.Store {
+	var st *ssa.Store
+	for _, r := range *a.Referrers() {
+		switch x := r.(type) {
+		case *ssa.Store:
+			if x.Addr != ssa.Value(a) || st != nil {
+				return nil
+			}
+			st = x
+		case *ssa.MakeClosure:
+			clo, _ := x.Fn.(*ssa.Function)
+			if clo == nil {
+				return nil
+			}
+			for i, b := range x.Bindings {
+				if b != ssa.Value(a) {
+					continue
+				}
+				for _, r2 := range *clo.FreeVars[i].Referrers() {
+					switch r2.(type) {
+					case *ssa.UnOp, *ssa.DebugRef:
+					default:
+						return nil
+					}
+				}
+			}
+		case *ssa.UnOp, *ssa.DebugRef:
+		default:
+			return nil
+		}
+	}
+	return st
+}
+
 func (c *ctx) analyseCtx(f *ssa.Function, argK []kind, fns []*ssa.Function) fnResult {
-	key := f.String() + fmt.Sprint(argK)
+	fvK := c.curFvK
+	c.curFvK = nil
+	key := f.String() + fmt.Sprint(argK) + fmt.Sprint(fvK)
 	for i, g := range fns {
 		if g != nil {
 			key += fmt.Sprintf("|%d=%s", i, g.String())
@@ -765,7 +865,7 @@ func (c *ctx) analyseCtx(f *ssa.Function, argK []kind, fns []*ssa.Function) fnRe
 		c.memo[key] = res
 		return res
 	}
-	a := &analysis{c: c, f: f, argK: argK, fnArgs: fns, guess: map[*ssa.Phi]kind{}, tainted: map[*ssa.Phi]bool{}, sofSrc: map[ssa.Value]ssa.Value{}}
+	a := &analysis{c: c, f: f, argK: argK, fnArgs: fns, fvK: fvK, guess: map[*ssa.Phi]kind{}, tainted: map[*ssa.Phi]bool{}, sofSrc: map[ssa.Value]ssa.Value{}}
 	converged := false
 	for iter := 0; iter < 40; iter++ {
 		a.kinds = map[ssa.Value]kind{}
